@@ -93,13 +93,16 @@ fn statements() {
         // surrounding / inner white space is part of the lexical form, whatever the datatype
         lit(" 7", &format!("{}integer", xs)), lit("7 ", &format!("{}integer", xs)), lit("\t7\n", &format!("{}integer", xs)), lit(" ", "x:d"), lit("\u{a0}7\u{2028}", "x:d"),
         lit(" x ", &format!("{}string", xs)), lang(" x ", "en"),
+        // blank node labels over the whole PN_CHARS repertoire (middle dot, combining mark, undertie, currency sign,
+        // leading digit, non-BMP letter); pairs that a lossy writer would merge
+        bn("a\u{b7}b"), bn("a_b"), bn("e\u{301}"), bn("x\u{203f}y"), bn("1\u{20ac}"), bn("\u{10400}z"), bn("a.b.c"),
     ];
     let q1 = SimpleTerm::Triple(Box::new([bn("b1"), iri("x:p"), lit("x", "https://www.w3.org/2001/XMLSchema#string")]));
     let q2 = SimpleTerm::Triple(Box::new([q1.clone(), iri("x:p"), lang("x", "en")]));
     objs.push(q1.clone());
     objs.push(q2.clone());
-    let subjs: Vec<T> = vec![iri("http://example.org/s"), bn("b2"), q1.clone(), q2.clone()];
-    let graphs: Vec<Option<T>> = vec![None, Some(iri("http://example.org/g")), Some(bn("g1"))];
+    let subjs: Vec<T> = vec![iri("http://example.org/s"), bn("b2"), q1.clone(), q2.clone(), bn("s\u{b7}1\u{203f}")];
+    let graphs: Vec<Option<T>> = vec![None, Some(iri("http://example.org/g")), Some(bn("g1")), Some(bn("g\u{b7}\u{301}"))];
     let mut n = 0;
     for s in &subjs { for o in &objs { for g in &graphs {
         n += 1;
